@@ -1121,6 +1121,10 @@ func (w *World) harvest() {
 			if v.K == KPush {
 				continue
 			}
+			if len(c.pending) == 0 && strings.HasPrefix(c.plan.Name, "attacker-raw") {
+				// replies to garbage are allowed (and not required)
+				continue
+			}
 			if len(c.pending) == 0 {
 				c.extra = append(c.extra, v)
 				w.viol = &Violation{Oracle: "frame", Fp: "frame:unsolicited-reply", Step: w.step,
